@@ -29,6 +29,14 @@ def bytes_repr(data: bytes) -> str:
     return bytes_repr_(data, False, None)
 
 
+def _json_default(obj: Any) -> Any:
+    # Attributes such as `dtc_ext_data_records: dict[int, bytes]` carry bytes below the top level
+    if isinstance(obj, bytes | bytearray):
+        return bytes_repr(bytes(obj))
+
+    raise TypeError(f"Object of type {type(obj).__name__} is not JSON serializable")
+
+
 schema_version = "4.0"
 
 DB_SCHEMA = f"""
@@ -420,11 +428,11 @@ class DBHandler:
             bytes_repr(request.pdu),
             send_time.timestamp(),
             send_time.tzname(),
-            json.dumps(request_attributes),
+            json.dumps(request_attributes, default=_json_default),
             bytes_repr(response.pdu) if response is not None else None,
             receive_time.timestamp() if response is not None and receive_time is not None else None,
             receive_time.tzname() if response is not None and receive_time is not None else None,
-            json.dumps(response_attributes) if response is not None else None,
+            json.dumps(response_attributes, default=_json_default) if response is not None else None,
             repr(exception) if exception is not None else None,
             log_mode.name,
         )
